@@ -18,8 +18,8 @@ EXPLANATION = ('Every constructor / reader / writer of the 40 vector types and t
                'bare atoms (bit-for-bit), and writers must leave every other lane untouched; because every operation is pinned to the same '
                'offset map, any sequence of writes and reads is consistent.')
 
-CONFIGS_QUICK = ['sse2', 'sse2-fma', 'scalar']
-CONFIGS_THOROUGH = ['sse2', 'sse2-fma', 'scalar', 'coresimd', 'neon', 'wasm32']
+CONFIGS_QUICK = ['sse2', 'sse2-fma', 'sse41', 'scalar', 'coresimd', 'neon', 'wasm32']
+CONFIGS_THOROUGH = ['sse2', 'sse2-fma', 'sse41', 'scalar', 'coresimd', 'neon', 'wasm32']
 FLOOR_TYPES = 36
 LETTERS = 'xyzw'
 
